@@ -11,3 +11,4 @@ open Biogo.Properties.C01
 #print axioms fastq_score_range
 #print axioms format_a_roundtrip
 #print axioms format_q_roundtrip
+#print axioms fasta_write_layout_prefixes
